@@ -129,3 +129,12 @@ claim(
     "finite-state set-once typestate check by abstract interpretation; syntax-tree control-dependence rules; permutation enumeration by abstract interpretation",
     "DESIGN.md §5 C27",
 )
+
+claim(
+    "C28",
+    "other",
+    "Decides the assembly of the static material arrays by abstract interpretation of _init_arrays up to the end of its placement loop on scenes of uniform-material boxes with symbolic, arbitrarily overlapping grid slices, concrete placement orders (ties, out-of-order listing) and concrete rational material tensors of every tier, built through Material.__init__ with tier flags computed by the repo's own container / material predicates. Per array the component count and, per component, the cell value as a polynomial in the boxes' region indicators are compared with the oracle: paint in ascending placement order, list order breaking ties, volume first, with 1/eps, 1/mu (3x3 inverse in the 9-tier) or sigma*c*dt/courant of each object's own tensor; count = widest tier any material needs; scalar 1 for a non-magnetic scene; no conductivity array for a lossless scene; container predicates consult the Material predicate of the same name. Exact for every overlap pattern at once. Multi-material voxel masks and sub-pixel smoothing are not decided.",
+    TB + "; sa/ndarr.py indicator algebra for .at[region].set; prefix slicing of _init_arrays at the end of the placement loop; models of create_named_sharded_matrix / sharding_preserving_set",
+    "abstract interpretation of a function prefix over an indicator-algebra array domain; polynomial identity against a painter's-order oracle; syntax-tree sibling-name rule",
+    "DESIGN.md §5 C28",
+)
